@@ -217,10 +217,10 @@ def find_tip_trough(arr_peak, arr_peak_real, df):
         df_rows = df_rows.drop(["trough_time_idx", "trough_val"], axis=1)
         # Create mini arr_peak for those rows uniquely (take the real waveforms value in, not inverted ones)
         arr_peak_rows = arr_peak_real[df_index, :]
-        # Place into "inverted" array peak for return
-        arr_peak[df_index, :] = arr_peak_rows
         # Get new sign for the peak
         arr_peak_rows, df_rows = invert_peak_waveform(arr_peak_rows, df_rows)
+        # Place into "inverted" array peak for return
+        arr_peak[df_index, :] = arr_peak_rows
         # New trough
         df_rows = find_trough(arr_peak_rows, df_rows)
         # New peak-trough ratio
